@@ -130,7 +130,7 @@ fn full_view(g: &DfirGraph) -> Vec<String> {
                 oi.op_constraints.name,
                 oi.input_ports.iter().map(port_str).collect::<Vec<_>>(),
                 oi.output_ports.iter().map(port_str).collect::<Vec<_>>(),
-                oi.arguments_raw.to_string().replace(' ', ""),
+                strip_ref_markers(&oi.arguments_raw.to_string().replace(' ', "")),
                 oi.generics.generic_args.as_ref().map(|g| quote!(#g).to_string()).unwrap_or_default(),
             )
         });
@@ -182,6 +182,36 @@ fn full_view(g: &DfirGraph) -> Vec<String> {
     out.push(format!("dot {:?}", g.to_dot(&Default::default())));
     out.push(format!("surface {:?}", g.surface_syntax_string()));
     out
+}
+
+/// remove the `#`, `#mut`, `#{N}`, `#{N}mut` reference markers from (space-free) argument text
+pub fn strip_ref_markers(s: &str) -> String {
+    let b = s.as_bytes();
+    let mut out = String::new();
+    let mut i = 0;
+    while i < b.len() {
+        if b[i] == b'#' {
+            i += 1;
+            if i < b.len() && b[i] == b'{' {
+                while i < b.len() && b[i] != b'}' {
+                    i += 1;
+                }
+                i += 1;
+            }
+            if s[i.min(s.len())..].starts_with("mut") {
+                i += 3;
+            }
+        } else {
+            out.push(b[i] as char);
+            i += 1;
+        }
+    }
+    out
+}
+
+/// number of reference markers in the raw arguments of every operator
+fn ref_marker_counts(g: &DfirGraph) -> Vec<(u64, usize)> {
+    g.nodes().filter_map(|(n, _)| g.node_op_inst(n).map(|oi| (ffi(n), oi.arguments_raw.to_string().matches('#').count()))).collect()
 }
 
 /// replace `loc_nopath_<l>_<c>_<l>_<c>` by `loc`
@@ -331,6 +361,12 @@ pub fn run_c20_case(rec: &mut Recorder, n: u64, tag: &str, plines: &[String]) {
             let (a, b) = (full_view(&p), full_view(&q));
             let first = a.iter().zip(b.iter()).find(|(x, y)| x != y);
             rec.check(a == b, "c20-json-roundtrip-accessors", &format!("{:?}", first));
+            // the `#var` reference markers inside operator arguments (finding F20: serde prints the parsed args)
+            let has_refs = ref_marker_counts(&p).iter().any(|x| x.1 > 0);
+            rec.check(ref_marker_counts(&p) == ref_marker_counts(&q), "c20-json-roundtrip-args@ref-markers-lost", "operator arguments lose their `#var` markers");
+            if has_refs {
+                rec.count("json-roundtrip-with-refs");
+            }
             let json2 = serde_json::to_string(&q).unwrap();
             rec.check(json == json2, "c20-json-roundtrip-json", "");
             // the loaded graph generates the same code as the original
@@ -341,13 +377,116 @@ pub fn run_c20_case(rec: &mut Recorder, n: u64, tag: &str, plines: &[String]) {
                     let (a, b) = (strip_locs(&c1.replace(' ', "")), strip_locs(&c2.replace(' ', "")));
                     let pos = a.bytes().zip(b.bytes()).position(|(x, y)| x != y).unwrap_or(a.len().min(b.len()));
                     let lo = pos.saturating_sub(60);
-                    rec.check(a == b, "c20-json-roundtrip-code", &format!("at {pos}: `{}` vs `{}`", &a[lo..(pos + 60).min(a.len())], &b[lo..(pos + 60).min(b.len())]));
+                    let sig = if has_refs { "c20-json-roundtrip-code@ref-markers-lost" } else { "c20-json-roundtrip-code" };
+                    rec.check(a == b, sig, &format!("at {pos}: `{}` vs `{}`", &a[lo..(pos + 60).min(a.len())], &b[lo..(pos + 60).min(b.len())]));
                 }
                 (Err(_), Err(_)) => rec.count("code-error-both"),
                 (x, y) => rec.check(false, "c20-json-roundtrip-code-result", &format!("{:?} vs {:?}", x.is_ok(), y.is_ok())),
             }
             rec.count("json-roundtrip");
             if p.nodes().any(|(_, nd)| matches!(nd, GraphNode::Handoff { .. })) {
+                rec.nontrivial();
+            }
+        }
+    }
+}
+
+fn port_of(label: &str) -> dfir_lang::graph::PortIndexValue {
+    if label == "_" {
+        dfir_lang::graph::PortIndexValue::Elided(None)
+    } else {
+        let pi: dfir_lang::parse::PortIndex = syn::parse_str(label).expect("port label");
+        pi.into()
+    }
+}
+
+/// `merge_modules` on a synthetic graph with ModuleBoundary nodes (they cannot arise from surface syntax any more,
+/// but `build_dfir_code` still runs the pass): outer producers -> boundary -> inner consumers, matched by port label
+pub fn run_c20_module_case(rec: &mut Recorder, n: u64, seed: &Rng) {
+    let mut r = seed.fork(n ^ 0x6d6f64);
+    rec.case(n, "modules");
+    let mut g = DfirGraph::new();
+    let labels_all = ["0", "1", "2", "foo", "bar", "_"];
+    let nb = r.range(1, 2);
+    let mut expect: Vec<(u64, String, u64, String)> = Vec::new();
+    let mut mismatch = false;
+    let mut bounds = Vec::new();
+    let op = |g: &mut DfirGraph, txt: &str| -> GraphNodeId {
+        let o: dfir_lang::parse::Operator = syn::parse_str(txt).unwrap();
+        g.insert_node(GraphNode::Operator(o), None, None)
+    };
+    for b in 0..nb {
+        let k = r.range(1, 3) as usize;
+        let mut labels: Vec<&str> = Vec::new();
+        while labels.len() < k {
+            let l = *r.pick(&labels_all);
+            if !labels.contains(&l) {
+                labels.push(l);
+            }
+        }
+        let producers: Vec<GraphNodeId> = (0..k).map(|_| op(&mut g, "map(|x| x)")).collect();
+        let m = g.insert_node(GraphNode::ModuleBoundary { input: b == 0, import_expr: proc_macro2::Span::call_site() }, None, None);
+        let consumers: Vec<GraphNodeId> = (0..k).map(|_| op(&mut g, "for_each(|_| ())")).collect();
+        bounds.push(m);
+        let mut out_labels = labels.clone();
+        // shuffle the out side, sometimes break the matching
+        for i in (1..k).rev() {
+            let j = r.below(i as u64 + 1) as usize;
+            out_labels.swap(i, j);
+        }
+        let broken = r.chance(1, 6);
+        for i in 0..k {
+            let sp = *r.pick(&["_", "0", "out"]);
+            g.insert_edge(producers[i], port_of(sp), m, port_of(labels[i]));
+            expect.push((idx(producers[i]), sp.to_string(), 0, labels[i].to_string()));
+        }
+        for i in 0..k {
+            let dp = *r.pick(&["_", "1", "inp"]);
+            let mut l = out_labels[i];
+            if broken && i == 0 {
+                l = if l == "zzz" { "0" } else { "zzz" };
+                mismatch = true;
+            }
+            g.insert_edge(m, port_of(l), consumers[i], port_of(dp));
+            // match up with the producer edge carrying the same label
+            for e in expect.iter_mut() {
+                if e.2 == 0 && e.3 == l {
+                    e.2 = idx(consumers[i]);
+                    e.3 = dp.to_string();
+                }
+            }
+        }
+    }
+    let v0 = gview(&g);
+    for nd in &v0.nodes {
+        rec.line(&format!("rnode {} {} {}", nd.0, nd.1, nd.2), "ok");
+    }
+    for e in &v0.edges {
+        rec.line(&format!("redge {} {} {} {} {}", e.0, e.1, e.2, e.3, e.4), "ok");
+    }
+    let res = hv_common::catch(std::panic::AssertUnwindSafe(|| g.merge_modules()));
+    match res {
+        Err(_) => {
+            rec.line("merge", "panic");
+            rec.check(false, "c20-merge-modules-panic", "");
+        }
+        Ok(Err(_)) => {
+            rec.line("merge", "err");
+            rec.count("merge-modules-port-mismatch");
+            rec.check(mismatch, "c20-merge-modules-spurious-error", "ports matched but merge_modules reported a mismatch");
+        }
+        Ok(Ok(())) => {
+            rec.line("merge", "ok");
+            rec.count("merge-modules-ok");
+            let v1 = gview(&g);
+            dump_graph_lines(rec, &v1);
+            rec.check(!mismatch, "c20-merge-modules-accepted-mismatch", "");
+            if !mismatch {
+                expect.sort();
+                rec.check(v1.wires() == expect, "c20-merge-modules-wiring", &format!("expected {:?} got {:?}", expect, v1.wires()));
+                rec.check(v1.nodes.iter().all(|x| x.1 != "mod"), "c20-merge-modules-boundary-left", "");
+                rec.check(v1.nodes.len() + bounds.len() == v0.nodes.len(), "c20-merge-modules-nodes", "");
+                rec.check(v1.valid(), "c20-merge-invalid-graph", "");
                 rec.nontrivial();
             }
         }
